@@ -144,7 +144,18 @@ def method_filter(ctx):
             if okg:
                 csig = g[1][3]
                 cw = writers_of(ex, csig)
-                okg = len(cw) == 1 and cw[0].rhs == condv and g[1][2] == 0
+                # the branch condition is a one-bit signal: it has to receive the TRUTH VALUE of the condition (non-zero is
+                # true, as with m.If in the other mode) - assigning the raw value keeps only its lowest bit (F12)
+                def truth_of(t):
+                    for p_ in ("Q_x.bool()", "Q_x.any()", "Q_x != 0", "0 != Q_x"):
+                        mt = pmatch(p_, t)
+                        if mt is not None:
+                            x = mt["x"]
+                            mc = pmatch("Value.cast(Q_y)", x)
+                            return (mc["y"] if mc is not None else x) == condv
+                    return False
+
+                okg = len(cw) == 1 and truth_of(cw[0].rhs) and g[1][2] == 0
             ctx.check(okg and same_guard, "C18.filter-conditional-call", tc[0].site, f"MethodFilter.target-call[{cn}]", found=" / ".join(fr[0] for fr in g),
                       required="with use_condition: target called and its result taken in a condition(nonblocking=True) branch on the condition (the method does not block on the target)")
             ctx.check(b.kwargs.get("single_caller") == pat("self.use_condition"), "C18.filter-single-caller", b.site, f"MethodFilter.single_caller[{cn}]", found=str({k: tstr(v) for k, v in b.kwargs.items()}), required="single_caller tied to use_condition")
